@@ -288,29 +288,6 @@ theorem readAttrs_inv {n : Nat} {specs : List AttrSpec} {bs r : List Nat} {as : 
         simp only [encAttrs, List.append_assoc]
         rw [← e2, ← e1]
 
-def SpecsOK (specs : List AttrSpec) : Prop := ∀ sp ∈ specs, 0 < sp.size ∧ 0 < sp.comps
-
-theorem navisAttrs_enc (n : Nat) (specs : List AttrSpec) (as : List (List Nat)) (rest : List Nat)
-    (hs : SpecsOK specs) (h : AttrsOK n specs as) :
-    navisAttrs n n specs (encAttrs specs as ++ rest) = some as := by
-  induction specs generalizing as with
-  | nil => cases as with
-    | nil => simp [navisAttrs]
-    | cons => simp [AttrsOK] at h
-  | cons sp sps ih =>
-    cases as with
-    | nil => simp [AttrsOK] at h
-    | cons vs vss =>
-      obtain ⟨h1, h2, h3⟩ := h
-      obtain ⟨hs1, hs2⟩ := hs sp (by simp)
-      simp only [encAttrs, navisAttrs, List.append_assoc]
-      have e : sp.comps * n = vs.length := by rw [h1, Nat.mul_comm]
-      rw [e, availWords_enc sp.size hs1 vs _ h2]
-      simp only
-      rw [if_neg, ih vss (fun x hx => hs x (by simp [hx])) h3]
-      rw [h1]
-      simp [Nat.mul_mod_left, Nat.mul_div_cancel _ hs2]; omega
-
 theorem decodeSkel_encode (specs : List AttrSpec) (sk : Skel) (h : sk.OK specs) :
     decodeSkel specs (encodeSkel specs sk) = some sk := by
   unfold decodeSkel encodeSkel
@@ -322,18 +299,18 @@ theorem decodeSkel_encode (specs : List AttrSpec) (sk : Skel) (h : sk.OK specs) 
   simp only [List.append_nil] at this
   rw [this]; simp only [ne_eq, not_true_eq_false, ↓reduceIte, triples_flat3, pairs_flat2]
 
-theorem navisReadSkel_encode (specs : List AttrSpec) (sk : Skel) (hs : SpecsOK specs) (h : sk.OK specs)
+theorem navisReadSkel_encode (specs : List AttrSpec) (sk : Skel) (h : sk.OK specs)
     (extra : List Nat) :
     navisReadSkel specs (encodeSkel specs sk ++ extra) = some sk := by
   unfold navisReadSkel encodeSkel
   simp only [List.append_assoc]
   rw [← readU32_eq_readWord, u32_round_trip' _ _ h.nverts]; simp only
   rw [← readU32_eq_readWord, u32_round_trip' _ _ h.nedges]; simp only
-  rw [← flat3_length, availWords_enc 4 (by decide) _ _ (by simpa using h.vwords)]; simp only
+  rw [← flat3_length, readWords_enc 4 _ _ (by simpa using h.vwords)]; simp only
   rw [triples_flat3]; simp only
-  rw [← flat2_length, availWords_enc 4 (by decide) _ _ (by simpa using h.ewords)]; simp only
+  rw [← flat2_length, readWords_enc 4 _ _ (by simpa using h.ewords)]; simp only
   rw [pairs_flat2]; simp only
-  rw [navisAttrs_enc _ _ _ _ hs h.attrs]
+  rw [readAttrs_enc _ _ _ _ h.attrs]
 
 /-- A successful strict decode pins the length of the file to what its header announces. -/
 theorem decodeSkel_length {specs : List AttrSpec} {bs : List Nat} {sk : Skel}
@@ -587,7 +564,7 @@ theorem decodeMesh_encode (m : Mesh) (h : m.OK) : decodeMesh (encodeMesh m) = so
 theorem navisReadMesh_encode (m : Mesh) (h : m.OK) : navisReadMesh (encodeMesh m) = some m := by
   unfold navisReadMesh encodeMesh
   rw [← readU32_eq_readWord, u32_round_trip' _ _ h.nverts]; simp only
-  rw [← flat3_length, availWords_enc 4 (by decide) _ _ (by simpa using h.vwords)]; simp only
+  rw [← flat3_length, readWords_enc 4 _ _ (by simpa using h.vwords)]; simp only
   rw [triples_flat3]; simp only
   have hl : (encWords 4 (flat3 m.faces)).length = 4 * (flat3 m.faces).length := encWords_length _ _
   -- `f.read()` asks for more than is left: everything is returned
@@ -762,9 +739,9 @@ theorem decodeSkel_ok {specs : List AttrSpec} {bs : List Nat} {sk : Skel} (hb : 
   · rw [hn]; exact readAttrs_ok hb4 h5
 
 /-- **The reader that exists agrees with the independent decoder on every file the latter accepts.** -/
-theorem navisReadSkel_of_decode {specs : List AttrSpec} {bs : List Nat} {sk : Skel} (hs : SpecsOK specs)
+theorem navisReadSkel_of_decode {specs : List AttrSpec} {bs : List Nat} {sk : Skel}
     (hb : BytesOK bs) (h : decodeSkel specs bs = some sk) : navisReadSkel specs bs = some sk := by
-  have := navisReadSkel_encode specs sk hs (decodeSkel_ok hb h) []
+  have := navisReadSkel_encode specs sk (decodeSkel_ok hb h) []
   rwa [List.append_nil, encodeSkel_decode hb h] at this
 
 theorem navisReadSkel_short {specs : List AttrSpec} {bs : List Nat} (h : bs.length < 8) :
@@ -776,6 +753,177 @@ theorem navisReadSkel_short {specs : List AttrSpec} {bs : List Nat} (h : bs.leng
     have := (readWord_length h1).1
     have : readWord 4 r1 = none := by unfold readWord; rw [if_pos (by omega)]
     rw [this]
+
+/-- Destructuring a successful read of the (repaired) navis reader. -/
+theorem navisReadSkel_some {specs : List AttrSpec} {bs : List Nat} {sk : Skel} (h : navisReadSkel specs bs = some sk) :
+    ∃ n r1 e r2 vw r3 ew r4 r5, readWord 4 bs = some (n, r1) ∧ readWord 4 r1 = some (e, r2) ∧
+      readWords 4 (3 * n) r2 = some (vw, r3) ∧ readWords 4 (2 * e) r3 = some (ew, r4) ∧
+      readAttrs n specs r4 = some (sk.attrs, r5) ∧ triples vw = some sk.verts ∧ pairs ew = some sk.edges := by
+  unfold navisReadSkel at h
+  split at h
+  · simp at h
+  · rename_i n r1 h1
+    split at h
+    · simp at h
+    · rename_i e r2 h2
+      split at h
+      · simp at h
+      · rename_i vw r3 h3
+        split at h
+        · simp at h
+        · rename_i vs hv
+          split at h
+          · simp at h
+          · rename_i ew r4 h4
+            split at h
+            · simp at h
+            · rename_i es he
+              split at h
+              · simp at h
+              · rename_i as r5 h5
+                simp only [Option.some.injEq] at h
+                subst h
+                exact ⟨n, r1, e, r2, vw, r3, ew, r4, r5, h1, h2, h3, h4, h5, hv, he⟩
+
+/-- A successful read pins the header to the counts returned and needs at least the announced bytes. -/
+theorem navisReadSkel_length {specs : List AttrSpec} {bs : List Nat} {sk : Skel}
+    (h : navisReadSkel specs bs = some sk) :
+    ∃ r1 r2, readU32 bs = some (sk.verts.length, r1) ∧ readU32 r1 = some (sk.edges.length, r2) ∧
+      skelLen specs sk.verts.length sk.edges.length ≤ bs.length := by
+  obtain ⟨n, r1, e, r2, vw, r3, ew, r4, r5, h1, h2, h3, h4, h5, hv, he⟩ := navisReadSkel_some h
+  have lv := congrArg List.length (triples_inv hv)
+  have le' := congrArg List.length (pairs_inv he)
+  rw [flat3_length] at lv
+  rw [flat2_length] at le'
+  have a1 := (readWord_length h1).1
+  have a2 := (readWord_length h2).1
+  have a3 := readWords_length h3
+  have a4 := readWords_length h4
+  have a5 := readAttrs_length h5
+  have hn : sk.verts.length = n := by omega
+  have hee : sk.edges.length = e := by omega
+  refine ⟨r1, r2, by rw [readU32_eq_readWord, h1, hn], by rw [readU32_eq_readWord, h2, hee], ?_⟩
+  simp only [skelLen, hn, hee]; omega
+
+/-- The reader accepts exactly well-formed files followed by arbitrary trailing bytes. -/
+theorem navisReadSkel_inv {specs : List AttrSpec} {bs : List Nat} {sk : Skel} (hb : BytesOK bs)
+    (h : navisReadSkel specs bs = some sk) : ∃ extra, bs = encodeSkel specs sk ++ extra := by
+  obtain ⟨n, r1, e, r2, vw, r3, ew, r4, r5, h1, h2, h3, h4, h5, hv, he⟩ := navisReadSkel_some h
+  have i1 := readWord_inv hb h1
+  have hb1 : BytesOK r1 := by rw [i1] at hb; exact hb.append_right
+  have i2 := readWord_inv hb1 h2
+  have hb2 : BytesOK r2 := by rw [i2] at hb1; exact hb1.append_right
+  obtain ⟨i3, _⟩ := readWords_inv hb2 h3
+  have hb3 : BytesOK r3 := by rw [i3] at hb2; exact hb2.append_right
+  obtain ⟨i4, _⟩ := readWords_inv hb3 h4
+  have hb4 : BytesOK r4 := by rw [i4] at hb3; exact hb3.append_right
+  have i5 := readAttrs_inv hb4 h5
+  have lv := congrArg List.length (triples_inv hv)
+  have le' := congrArg List.length (pairs_inv he)
+  rw [flat3_length] at lv
+  rw [flat2_length] at le'
+  have a3 := (readWords_length h3).2
+  have a4 := (readWords_length h4).2
+  have hn : sk.verts.length = n := by omega
+  have hee : sk.edges.length = e := by omega
+  refine ⟨r5, ?_⟩
+  simp only [encodeSkel, u32le, hn, hee]
+  rw [← triples_inv hv, ← pairs_inv he]
+  rw [i1, i2, i3, i4, i5]; simp
+
+/-- **Every proper prefix of a well-formed skeleton file is rejected by navis' reader.** -/
+theorem navisReadSkel_truncated (specs : List AttrSpec) (sk : Skel) (h : sk.OK specs) (k : Nat)
+    (hk : k < (encodeSkel specs sk).length) : navisReadSkel specs ((encodeSkel specs sk).take k) = none := by
+  by_cases h8 : k < 8
+  · exact navisReadSkel_short (by simp; omega)
+  · cases hd : navisReadSkel specs ((encodeSkel specs sk).take k) with
+    | none => rfl
+    | some sk' =>
+      exfalso
+      obtain ⟨r1, r2, g1, g2, g3⟩ := navisReadSkel_length hd
+      have e1 : readU32 (encodeSkel specs sk) = some (sk.verts.length, _) := u32_round_trip' _ _ h.nverts
+      have e2 := u32_round_trip' sk.edges.length
+        (encWords 4 (flat3 sk.verts) ++ (encWords 4 (flat2 sk.edges) ++ encAttrs specs sk.attrs)) h.nedges
+      have t1 := readU32_take e1 (k := k) (by omega)
+      have t2 := readU32_take e2 (k := k - 4) (by omega)
+      rw [t1] at g1
+      simp only [Option.some.injEq, Prod.mk.injEq] at g1
+      obtain ⟨hn, rfl⟩ := g1
+      rw [t2] at g2
+      simp only [Option.some.injEq, Prod.mk.injEq] at g2
+      obtain ⟨he, _⟩ := g2
+      rw [← hn, ← he, ← encodeSkel_length specs sk h] at g3
+      simp at g3; omega
+
+/-- what `availWords` returns when asked for at least everything that is left -/
+theorem availWords_all {s k : Nat} {bs ws r : List Nat} (_hs : 0 < s) (hk : bs.length ≤ s * k)
+    (h : availWords s k bs = some (ws, r)) : bs.length = s * ws.length := by
+  unfold availWords at h
+  rw [List.take_of_length_le hk] at h
+  split at h
+  · simp at h
+  · rename_i hmod
+    simp only [ne_eq, Decidable.not_not] at hmod
+    split at h
+    · simp at h
+    · rename_i ws' r' hr
+      simp only [Option.some.injEq, Prod.mk.injEq] at h
+      obtain ⟨rfl, _⟩ := h
+      have := (readWords_length hr).2
+      rw [this]
+      have := Nat.div_add_mod bs.length s
+      rw [hmod] at this; omega
+
+/-- A successful mesh read needs the complete vertex block and a whole number of triangles after it. -/
+theorem navisReadMesh_length {bs : List Nat} {m : Mesh} (h : navisReadMesh bs = some m) :
+    ∃ r1, readU32 bs = some (m.verts.length, r1) ∧ bs.length = 4 + 12 * m.verts.length + 12 * m.faces.length := by
+  unfold navisReadMesh at h
+  split at h
+  · simp at h
+  · rename_i n r1 h1
+    split at h
+    · simp at h
+    · rename_i vw r2 h2
+      split at h
+      · simp at h
+      · rename_i vs hv
+        split at h
+        · simp at h
+        · rename_i fw r3 h3
+          split at h
+          · simp at h
+          · rename_i fs hf
+            simp only [Option.some.injEq] at h
+            subst h
+            have lv := congrArg List.length (triples_inv hv)
+            have lf := congrArg List.length (triples_inv hf)
+            rw [flat3_length] at lv lf
+            have a1 := (readWord_length h1).1
+            have a2 := readWords_length h2
+            have a3 := availWords_all (by decide) (by omega) h3
+            have hn : vs.length = n := by omega
+            refine ⟨r1, by rw [readU32_eq_readWord, h1, hn], ?_⟩
+            simp only; omega
+
+/-- navis' mesh reader rejects every truncation inside the vertex block or off a triangle boundary. -/
+theorem navisReadMesh_truncated (m : Mesh) (h : m.OK) (k : Nat) (hk : k < (encodeMesh m).length)
+    (hmis : k < 4 + 12 * m.verts.length ∨ (k - 4) % 12 ≠ 0) : navisReadMesh ((encodeMesh m).take k) = none := by
+  cases hd : navisReadMesh ((encodeMesh m).take k) with
+  | none => rfl
+  | some m' =>
+    exfalso
+    obtain ⟨r1, g1, g2⟩ := navisReadMesh_length hd
+    have hl : ((encodeMesh m).take k).length = k := by simp; omega
+    rw [hl] at g2
+    by_cases h4 : k < 4
+    · omega
+    · have e1 : readU32 (encodeMesh m) = some (m.verts.length, _) := u32_round_trip' _ _ h.nverts
+      have t1 := readU32_take e1 (k := k) (by omega)
+      rw [t1] at g1
+      simp only [Option.some.injEq, Prod.mk.injEq] at g1
+      obtain ⟨hn, _⟩ := g1
+      rw [← hn] at g2
+      rcases hmis with hmis | hmis <;> omega
 
 theorem toSkel_ok (t : List Row) (radius : Bool) (h : Writable t) : (toSkel t radius).OK (specsFor radius) := by
   have hlt := writeEdges_lt t h.table
